@@ -139,7 +139,10 @@ class Variable:
 
     def reset(self):
         """Reset the variable to its initial value."""
-        self.update(self.initial_value)
+        if hasattr(self.variable, 'reset'):
+            self.variable.reset()
+        else:
+            self.update(self.initial_value)
 
     def __str__(self):
         """Return a string representation of the variable.
